@@ -392,6 +392,9 @@ def build_disc(model, mesh, num_desc, flux, bcL, bcR):
     num = build_num(num_desc)
     if _preuse(num_desc, int(mesh.ncell), flux):
         preuse_num(num, mesh)
+    # two sides with the same condition: scripts often pass ONE dictionary for both (bc = {'type': 'sym'}; fvm(..., bcL=bc, bcR=bc))
+    if repr(bcL) == repr(bcR) and _preuse(num_desc, "bc", int(mesh.ncell)):
+        bcR = bcL
     return modeldisc.fvm(model, mesh, num, numflux=flux, bcL=bcL, bcR=bcR)
 
 
@@ -400,6 +403,12 @@ def build_disc2d(model, mesh, num_desc, flux, bclist):
     num = build_num(num_desc)
     if _preuse(num_desc, int(mesh.nx), int(mesh.ny), flux):
         preuse_num2d(num, model, int(mesh.nx), int(mesh.ny))
+    if _preuse(num_desc, "bc", int(mesh.nx), int(mesh.ny)):
+        # sides with the same condition share ONE dictionary object
+        seen, shared = {}, {}
+        for tag in sorted(bclist):
+            shared[tag] = seen.setdefault(repr(bclist[tag]), bclist[tag])
+        bclist = shared
     return modeldisc.fvm2d(model, mesh, num=num, numflux=flux, bclist=bclist)
 
 
